@@ -4,14 +4,9 @@ From V Require Import Base.Util Gql.Ast C03.Model C03.Spec C03.Proofs C03.Proofs
 Definition arg_keys (args : list (ident * value)) : list str := map (fun kv => iname (fst kv)) args.
 Definition def_names (defs : list inputvaldef) : list str := map (fun d => iname (iv_name d)) defs.
 
-Lemma find_arg_none (ad : inputvaldef) args :
-  find (fun kv : ident * value => str_eqb (iname (iv_name ad)) (iname (fst kv))) args = None <->
-  mem (iname (iv_name ad)) (arg_keys args) = false.
-Proof.
-  unfold arg_keys. induction args as [|[k v] r IH]; [cbn; tauto|].
-  cbn [find map fst]. rewrite mem_cons.
-  destruct (str_eqb (iname (iv_name ad)) (iname k)); cbn [orb]; [split; discriminate | exact IH].
-Qed.
+Lemma filter_args_length name (args : list (ident * value)) :
+  length (filter (fun kv : ident * value => str_eqb name (iname (fst kv))) args) = count_key name (arg_keys args).
+Proof. unfold count_key, arg_keys. rewrite filter_map_length. reflexivity. Qed.
 
 Section ArgLoop.
   Variable S : tsdoc.
@@ -23,28 +18,22 @@ Section ArgLoop.
 
   Lemma arg_step_eq st ad :
     arg_step S vars apos args st ad =
-    (fst st ++ ad_errs ad, snd st + (if mem (iname (iv_name ad)) (arg_keys args) then 1 else 0)).
+    (fst st ++ ad_errs ad, snd st + count_key (iname (iv_name ad)) (arg_keys args)).
   Proof.
-    unfold ad_errs, arg_step.
-    destruct (find (fun kv => str_eqb (iname (iv_name ad)) (iname (fst kv))) args) as [kv|] eqn:Ef.
-    - assert (Hm : mem (iname (iv_name ad)) (arg_keys args) = true).
-      { destruct (mem (iname (iv_name ad)) (arg_keys args)) eqn:E; [reflexivity|].
-        apply find_arg_none in E. congruence. }
-      rewrite Hm. cbn [fst snd app]. f_equal. lia.
-    - apply find_arg_none in Ef. rewrite Ef.
-      destruct (if negb (ty_is_nonnull (iv_type ad)) then true else match iv_default ad with Some _ => true | None => false end);
-        cbn [fst snd app]; destruct st as [e n]; cbn [fst snd]; rewrite ?app_nil_r, Nat.add_0_r; reflexivity.
+    unfold ad_errs, arg_step. rewrite <- filter_args_length.
+    destruct (filter (fun kv => str_eqb (iname (iv_name ad)) (iname (fst kv))) args) as [|m ms].
+    - destruct (if negb (ty_is_nonnull (iv_type ad)) then true else match iv_default ad with Some _ => true | None => false end);
+        cbn [fst snd app length]; destruct st as [e n]; cbn [fst snd]; rewrite ?app_nil_r, Nat.add_0_r; reflexivity.
+    - cbn [fst snd app]. reflexivity.
   Qed.
 
   Lemma arg_fold : forall defs st,
     fold_left (arg_step S vars apos args) defs st =
-    (fst st ++ flat_map ad_errs defs,
-     snd st + length (filter (fun ad => mem (iname (iv_name ad)) (arg_keys args)) defs)).
+    (fst st ++ flat_map ad_errs defs, snd st + sumc (def_names defs) (arg_keys args)).
   Proof.
-    induction defs as [|ad defs IH]; intros st; cbn [fold_left flat_map filter].
+    induction defs as [|ad defs IH]; intros st; cbn [fold_left flat_map def_names map sumc].
     - cbn. rewrite app_nil_r, Nat.add_0_r. destruct st; reflexivity.
-    - rewrite IH, arg_step_eq. cbn [fst snd]. rewrite <- app_assoc. f_equal.
-      destruct (mem (iname (iv_name ad)) (arg_keys args)); cbn [length]; lia.
+    - rewrite IH, arg_step_eq. cbn [fst snd]. rewrite <- app_assoc. f_equal. fold (def_names defs). lia.
   Qed.
 End ArgLoop.
 
@@ -60,15 +49,27 @@ Section ArgsSound.
   Variable vars : option vardefs.
   Hypothesis Hwf : schema_wf S = true.
 
+  (** an accepted value given for a position: well-typed, and its variables usable there (a variable given directly
+      for a defaulted non-null position is judged with the location's default, IsVariableUsageAllowed) *)
+  Lemma value_at_location d v :
+    ty_wf (iv_type d) = true -> check_value S vars v (loc_type d v) = [] ->
+    lit_ok S v (iv_type d) = true /\ Forall (use_ok vars) (var_uses false S v (Some (iv_type d)) (has_default d)).
+  Proof.
+    intros Hty H. destruct (is_var v) eqn:Ev.
+    - destruct v as [n p| | | | | | | |]; try discriminate Ev. split; [apply lo_var|].
+      cbn [var_uses]. constructor; [|constructor]. rewrite cv_var in H. apply (var_loc_sound vars d n p Hty H).
+    - rewrite (loc_type_nonvar d v Ev) in H. destruct (check_value_sound S vars Hwf v _ H) as [H1 H2]. split; [exact H1 | apply H2].
+  Qed.
+
   Theorem check_arguments_sound ppos pname kind args defs :
-    NoDup (def_names defs) ->
+    NoDup (def_names defs) -> (forall d, In d defs -> ty_wf (iv_type d) = true) ->
     check_arguments S vars ppos pname kind args defs = [] ->
     args_defined_ok (provided args, defs) = true
     /\ required_args_ok (provided args, defs) = true
     /\ literal_types_vis S (provided args, defs) = true
     /\ Forall (use_ok vars) (args_var_uses false S (provided args) defs).
   Proof.
-    intros Hnd H. unfold check_arguments in H.
+    intros Hnd Hty H. unfold check_arguments in H.
     assert (Hmain : forall apos,
       (let st := fold_left (arg_step S vars apos (provided args)) defs ([], 0) in
        fst st ++ (if Nat.ltb (snd st) (length (provided args)) then
@@ -87,35 +88,43 @@ Section ArgsSound.
           destruct (forallb (fun ad => negb (str_eqb (iname (iv_name ad)) (iname (fst kv)))) defs) eqn:Ef; [discriminate|].
           apply forallb_neg_false_mem, Ef.
         - apply Nat.ltb_ge in Elt.
-          assert (Hc : (forall k, In k (arg_keys (provided args)) -> In k (def_names defs)) /\ NoDup (arg_keys (provided args))).
-          { apply count_incl; [exact Hnd|]. unfold def_names. rewrite filter_map_length.
-            unfold arg_keys at 1. rewrite map_length. exact Elt. }
-          intros kv Hin. apply mem_In, (proj1 Hc). unfold arg_keys. apply in_map_iff. exists kv. auto. }
+          assert (Hc : forall k, In k (arg_keys (provided args)) -> In k (def_names defs)).
+          { apply (sumc_all_defined _ _ Hnd). unfold arg_keys at 1. rewrite map_length. exact Elt. }
+          intros kv Hin. apply mem_In, Hc. unfold arg_keys. apply in_map_iff. exists kv. auto. }
       assert (Hper : forall ad, In ad defs ->
-                match arg_for ad (provided args) with
-                | Some kv => check_value S vars (snd kv) (iv_type ad) = []
-                | None => required_input ad = false
-                end).
+                (forall kv, In kv (provided args) -> iname (iv_name ad) = iname (fst kv) ->
+                            check_value S vars (snd kv) (loc_type ad (snd kv)) = [])
+                /\ (mem (iname (iv_name ad)) (arg_keys (provided args)) = false -> required_input ad = false)).
       { intros ad Hin. pose proof (flat_map_nil _ _ He ad Hin) as Hk. unfold ad_errs, arg_step in Hk.
-        unfold arg_for. destruct (find _ (provided args)) as [kv|].
-        - cbn [fst app] in Hk. exact Hk.
-        - rewrite required_input_eq.
-          destruct (ty_is_nonnull (iv_type ad)); cbn [negb] in *; [|reflexivity].
-          destruct (iv_default ad); cbn in *; [reflexivity | discriminate]. }
+        pose proof (filter_args_length (iname (iv_name ad)) (provided args)) as Hlen.
+        destruct (filter (fun kv => str_eqb (iname (iv_name ad)) (iname (fst kv))) (provided args)) as [|m ms] eqn:Ef.
+        - split.
+          + intros kv Hkv Hn. exfalso. assert (Hf : In kv []).
+            { rewrite <- Ef. apply filter_In. split; [exact Hkv | apply str_eqb_eq, Hn]. } exact Hf.
+          + intros _. rewrite required_input_eq.
+            destruct (ty_is_nonnull (iv_type ad)); cbn [negb] in *; [|reflexivity].
+            destruct (iv_default ad); cbn in *; [reflexivity | discriminate].
+        - cbn [fst app] in Hk. split.
+          + intros kv Hkv Hn. apply (flat_map_nil _ _ Hk kv). rewrite <- Ef. apply filter_In. split; [exact Hkv | apply str_eqb_eq, Hn].
+          + intros Hm. apply count_key_zero in Hm. unfold keys in Hm. fold (arg_keys (provided args)) in Hm.
+            rewrite Hm in Hlen. discriminate Hlen. }
+      assert (Hval : forall kv d, In kv (provided args) ->
+                find (fun d0 => str_eqb (iname (iv_name d0)) (iname (fst kv))) defs = Some d ->
+                lit_ok S (snd kv) (iv_type d) = true
+                /\ Forall (use_ok vars) (var_uses false S (snd kv) (Some (iv_type d)) (has_default d))).
+      { intros kv d Hkv Hf. apply find_some in Hf as [Hd Hn]. apply str_eqb_eq in Hn.
+        apply (value_at_location d (snd kv) (Hty d Hd)). apply (proj1 (Hper d Hd) kv Hkv Hn). }
       repeat split.
       - unfold args_defined_ok. cbn [fst snd]. apply forallb_forall. intros kv Hin. apply Hdefined, Hin.
       - unfold required_args_ok. cbn [fst snd]. apply forallb_forall. intros ad Hin.
-        specialize (Hper ad Hin). unfold arg_for in Hper.
-        destruct (find _ (provided args)) as [kv|] eqn:Ef.
-        + apply find_some in Ef as [Hkin Hkn]. apply str_eqb_eq in Hkn.
-          rewrite orb_true_iff. right. apply mem_In, in_map_iff. exists kv. auto.
-        + rewrite Hper. reflexivity.
-      - unfold literal_types_vis. cbn [fst snd]. apply forallb_forall. intros ad Hin.
-        specialize (Hper ad Hin). destruct (arg_for ad (provided args)) as [kv|]; [|reflexivity].
-        apply (check_value_sound S vars Hwf _ _ Hper).
-      - unfold args_var_uses. apply Forall_flat_map. intros ad Hin.
-        specialize (Hper ad Hin). destruct (arg_for ad (provided args)) as [kv|]; [|constructor].
-        apply (check_value_sound S vars Hwf _ _ Hper). }
+        destruct (mem (iname (iv_name ad)) (map (fun kv => iname (fst kv)) (provided args))) eqn:Em; [apply orb_true_r|].
+        rewrite (proj2 (Hper ad Hin) Em). reflexivity.
+      - unfold literal_types_vis, literal_types_ok. cbn [fst snd]. apply forallb_forall. intros kv Hin.
+        destruct (find (fun d0 => str_eqb (iname (iv_name d0)) (iname (fst kv))) defs) as [d|] eqn:Ef; [|reflexivity].
+        apply (Hval kv d Hin Ef).
+      - unfold args_var_uses. apply Forall_flat_map. intros kv Hin.
+        destruct (find (fun d0 => str_eqb (iname (iv_name d0)) (iname (fst kv))) defs) as [d|] eqn:Ef; [|constructor].
+        apply (Hval kv d Hin Ef). }
     destruct args as [a|]; destruct defs as [|d0 defs0]; try discriminate.
     - apply (Hmain (args_pos a)). exact H.
     - cbn. repeat split; constructor.
@@ -134,12 +143,16 @@ Proof.
   - intros H. right. apply IH, H.
 Qed.
 
-Lemma wf_directive S n dd : schema_wf S = true -> get_directive S n = Some dd -> NoDup (def_names (dir_argdefs dd)).
+Lemma wf_directive_both S n dd : schema_wf S = true -> get_directive S n = Some dd ->
+  NoDup (def_names (dir_argdefs dd)) /\ forall d, In d (dir_argdefs dd) -> ty_wf (iv_type d) = true.
 Proof.
   intros Hwf Hg. apply get_directive_In in Hg. unfold schema_wf in Hwf.
   rewrite !andb_true_iff in Hwf. destruct Hwf as [[Hwf _] _].
-  rewrite forallb_forall in Hwf. specialize (Hwf _ Hg). cbn in Hwf. apply nodup_str_NoDup, Hwf.
+  rewrite forallb_forall in Hwf. specialize (Hwf _ Hg). cbn beta iota in Hwf. apply names_distinct_parts, Hwf.
 Qed.
+
+Lemma wf_directive S n dd : schema_wf S = true -> get_directive S n = Some dd -> NoDup (def_names (dir_argdefs dd)).
+Proof. intros Hwf Hg. apply (wf_directive_both S n dd Hwf Hg). Qed.
 
 (** names of the defined, non-repeatable directives of a list *)
 Definition nonrep (S : tsdoc) (ds : list directive) : list str :=
@@ -189,7 +202,8 @@ Section DirsSound.
           cbn [forallb map] in *. rewrite mem_cons, (str_eqb_sym loc).
           destruct (str_eqb (iname l) loc); cbn [negb andb orb] in *; [reflexivity | apply IHl, Ef].
         * apply (check_arguments_sound S vars Hwf (dir_pos d) (iname (dir_name d)) str_directive).
-          -- apply (wf_directive S _ _ Hwf Eg).
+          -- apply (wf_directive_both S _ _ Hwf Eg).
+          -- apply (wf_directive_both S _ _ Hwf Eg).
           -- exact Hargs.
       + cbn [nonrep flat_map]. rewrite Eg'. fold (nonrep S ds).
         destruct (dd_repeatable dd) as [r|]; cbn [app]; [exact IHb|].
